@@ -96,9 +96,9 @@ func specPlain6(p *packets.FrameParser) bool {
 //@ requires[pre.past]       forall(k, 0, 65536, u.sentProbes[k].sendTime <= now())
 //@ ensures[C09.xor]         (ret0 == nil) != (ret1 == nil)
 //@ ensures[C09.class]       ret1 != nil ==> chain(ret1, *common.ReceiveProbeNoPktError) || chain(ret1, *common.BadPacketError)
-//@ ensures[C01+C11.sound.kind]  ret0 != nil ==> specIsErr(u.parser) && (specIs4(u.parser) || specIs6(u.parser))
-//@ ensures[C01+C11.sound.v4]    ret0 != nil && specIs4(u.parser) ==> specGenuine4(u, u.parser, ret0.TTL)
-//@ ensures[C01+C11.sound.v6]    ret0 != nil && specIs6(u.parser) && packets.SpecQ6Next(u.parser.ICMP6.Payload) != 0 ==> specGenuine6(u, u.parser, ret0.TTL)
+//@ ensures[C01+C05+C11.sound.kind]  ret0 != nil ==> specIsErr(u.parser) && (specIs4(u.parser) || specIs6(u.parser))
+//@ ensures[C01+C05+C11.sound.v4]    ret0 != nil && specIs4(u.parser) ==> specGenuine4(u, u.parser, ret0.TTL)
+//@ ensures[C01+C05+C11.sound.v6]    ret0 != nil && specIs6(u.parser) && packets.SpecQ6Next(u.parser.ICMP6.Payload) != 0 ==> specGenuine6(u, u.parser, ret0.TTL)
 //@ ensures[C01.addr]        ret0 != nil ==> ret0.IP == packets.SpecOuterSrc(u.parser)
 //@ ensures[C02.compl.v4]    specPlain4(u.parser) && specGenuine4(u, u.parser, specQuotedTTL4(u, u.parser)) ==> ret0 != nil && ret0.TTL == specQuotedTTL4(u, u.parser)
 //@ ensures[C02.compl.v6]    specPlain6(u.parser) && specGenuine6(u, u.parser, specQuotedTTL6(u, u.parser)) ==> ret0 != nil && ret0.TTL == specQuotedTTL6(u, u.parser)
@@ -152,6 +152,8 @@ func specProbeID(u *udpDriver, ttl uint8) uint16 {
 //@ requires[C10.send.open]  selb(isOpen, ref(u.sink))
 //@ requires[pre.past]     forall(k, 0, 65536, u.sentProbes[k].sendTime <= now())
 //@ ensures[C06.once]      ret0 == nil ==> !old(has(u.sentProbes, specProbeID(u, ttl))) && has(u.sentProbes, specProbeID(u, ttl)) && u.sentProbes[specProbeID(u, ttl)].ttl == ttl && u.sentProbes[specProbeID(u, ttl)].sendTime != 0
+// the probe is registered (matchable by the receiver) before it is on the wire: a reply can never overtake its own bookkeeping
+//@ before Sink.WriteTo assert[C02+C05.send.registered] has(u.sentProbes, specProbeID(u, ttl)) && u.sentProbes[specProbeID(u, ttl)].ttl == ttl && u.sentProbes[specProbeID(u, ttl)].sendTime != 0
 //@ ensures[C06.others]    forall(k, 0, 65536, k != int(specProbeID(u, ttl)) ==> u.sentProbes[k] == old(u.sentProbes[k]) && has(u.sentProbes, k) == old(has(u.sentProbes, k)))
 //@ ensures[C05.stamp]     ret0 == nil ==> wrN == old(wrN)+1 && u.sentProbes[specProbeID(u, ttl)].sendTime <= wrClock && u.sentProbes[specProbeID(u, ttl)].sendTime >= old(now())
 //@ ensures[C05.past]      forall(k, 0, 65536, u.sentProbes[k].sendTime <= now())
